@@ -523,9 +523,36 @@ def _merge_comp_loops(fn, stmts: List[ast.stmt]) -> List[ast.stmt]:
     return out
 
 
+def _merge_seeded_generators(stmts: List[ast.stmt]) -> List[ast.stmt]:
+    """'g = torch.Generator(..)' directly followed by the statement 'g.manual_seed(E)'  ->  'g = torch.Generator(..).manual_seed(E)'
+    (Generator.manual_seed seeds in place and returns the generator itself; E is evaluated after the construction either way)"""
+    out: List[ast.stmt] = []
+    i = 0
+    while i < len(stmts):
+        a = stmts[i]
+        b = stmts[i + 1] if i + 1 < len(stmts) else None
+        if isinstance(a, ast.Assign) and len(a.targets) == 1 and isinstance(a.targets[0], ast.Name) and \
+                isinstance(a.value, ast.Call) and isinstance(a.value.func, ast.Attribute) and a.value.func.attr == "Generator" and \
+                isinstance(a.value.func.value, ast.Name) and a.value.func.value.id == "torch" and \
+                isinstance(b, ast.Expr) and isinstance(b.value, ast.Call) and isinstance(b.value.func, ast.Attribute) and \
+                b.value.func.attr == "manual_seed" and isinstance(b.value.func.value, ast.Name) and \
+                b.value.func.value.id == a.targets[0].id and \
+                not any(isinstance(n, ast.Name) and n.id == a.targets[0].id for x in b.value.args + [k.value for k in b.value.keywords]
+                        for n in ast.walk(x)):
+            call = ast.Call(func=ast.Attribute(value=a.value, attr="manual_seed", ctx=ast.Load()), args=b.value.args,
+                            keywords=b.value.keywords)
+            out.append(ast.copy_location(ast.Assign(targets=a.targets, value=ast.copy_location(call, b.value)), a))
+            i += 2
+            continue
+        out.append(a)
+        i += 1
+    return out
+
+
 def _block(fn, stmts: List[ast.stmt]) -> List[ast.stmt]:
     out: List[ast.stmt] = []
     stmts = _merge_comp_loops(fn, stmts)
+    stmts = _merge_seeded_generators(stmts)
     for s in stmts:
         if isinstance(s, (ast.FunctionDef, ast.AsyncFunctionDef)):
             normalise_function(s)
